@@ -215,6 +215,12 @@ func newOctree(elements []elementReference, maxDepth int) *OctTree {
 		bounds.EncapsulateBounds(item.bounds)
 	}
 
+	// The box is stored as center/extents, so growing it can round it a few
+	// ulps smaller than the element bounds it was asked to hold. Cell bounds
+	// are only used for pruning: pad them so that rounding can never prune a
+	// cell whose elements match the query.
+	bounds.Expand(bounds.Center().Abs().Add(bounds.Size()).MaxComponent() * 1e-12)
+
 	if maxDepth == 0 {
 		return &OctTree{
 			bounds:              bounds,
